@@ -34,7 +34,7 @@ BUDGET = {
     "quick": {"cases": 20000, "seconds": 90, "shards": 8},
     "thorough": {"cases": 600000, "seconds": 900, "shards": 16},
 }
-REQUIRED_OBS = ["first_use_values_compared", "wrap:subclass", "wrap:i64", "float32_evaluations", "metric_eval_compared", "model_fit_compared", "model_predict_compared", "protected_cases",
+REQUIRED_OBS = ["caller_index_arrays", "big_endian_matrix", "first_use_values_compared", "wrap:subclass", "wrap:i64", "float32_evaluations", "metric_eval_compared", "model_fit_compared", "model_predict_compared", "protected_cases",
                 "fingerprints_compared", "history_on_exact_zero", "other_length_evaluations"]
 MIN_NONTRIVIAL = 300
 MODEL_METRICS = [n for n in NAMES if n != "statistic"]
@@ -91,6 +91,7 @@ def generate(rng, tier, idx):
         return A
 
     X = data(n)
+    byteorder = ">" if rng.random() < 0.06 else "="
     if rng.random() < 0.06:
         X[int(rng.integers(0, n)), int(rng.integers(0, d))] = float(rng.choice([np.nan, np.inf, -np.inf]))     # still the caller's data
     Y = make_labels(rng, X, "random", K=int(rng.integers(2, 4)))
@@ -101,7 +102,9 @@ def generate(rng, tier, idx):
     ops = ["fit"] + (["noise", "fit"] if rng.random() < 0.3 else []) + [choices[int(rng.integers(0, len(choices)))] for _ in range(int(rng.integers(1, 9)))]
     max_k = int(rng.integers(1, min(4, n - 1) + 1))
     return {"kind": "model", "model": model, "metric": name, "X": X.tolist(), "Y": Y.tolist(), "V": V.tolist(),
-            "YV": YV.tolist(), "Q": Q.tolist(), "ops": ops, "protect": protect, "max_k": max_k}
+            "YV": YV.tolist(), "Q": Q.tolist(), "ops": ops, "protect": protect, "max_k": max_k, "byteorder": byteorder,
+            "pre_idx": ([int(v) for v in rng.permutation(n + 3)[:n]] if (model in ("supervised", "unsup") and rng.random() < 0.2) else None),
+            "neg_idx": bool(rng.random() < 0.3)}
 
 
 def _same(a, b):
@@ -203,7 +206,9 @@ def _check_metric(case, res):
     return res
 
 
-def _fit(kind, m, X, Y, V, YV):
+def _fit(kind, m, X, Y, V, YV, I=None):
+    if I is not None and kind in ("supervised", "unsup"):
+        return safe_call(m.fit, X, Y, I)
     if kind == "supervised":
         return safe_call(m.fit, X, Y)
     if kind == "semi":
@@ -219,6 +224,23 @@ def _check_model(case, res, tmp):
 
     kind, name = case["model"], case["metric"]
     orig = {k: np.array(case[k], dtype=(int if k in ("Y", "YV") else float)) for k in ("X", "Y", "V", "YV", "Q")}
+    if case.get("byteorder") == ">":
+        orig["X"] = orig["X"].astype(">f8")            # a matrix in non-native byte order (e.g. read from a big-endian file)
+        res.see("big_endian_matrix")
+    pre_file = None
+    if case.get("pre_idx"):
+        # a pre-computed model: the caller also owns the INDEX arrays (one entry may be negative: the library rejects it, and must
+        # not "repair" it in the caller's array)
+        I = np.array(case["pre_idx"], dtype=int)
+        if case.get("neg_idx"):
+            I[0] = -1
+        orig["I"] = I
+        N = len(I) + 3
+        rngm = np.random.default_rng(len(I))
+        A = rngm.uniform(0.1, 5, size=(N, N)); A = np.triu(A, 1); A = A + A.T
+        pre_file = os.path.join(tmp, "pre.txt")
+        np.savetxt(pre_file, A)
+        res.see("caller_index_arrays")
     arrs = {k: v.copy() for k, v in orig.items()}
     if case["protect"]:
         for a in arrs.values():
@@ -226,11 +248,13 @@ def _check_model(case, res, tmp):
         res.see("protected_cases")
     has_zero = bool((orig["X"] == 0).any())
     kw = {"max_k": case["max_k"]}
+    if pre_file:
+        kw["pre"] = pre_file
 
     # reference: a fresh model on fresh copies of the original values
     f = {k: v.copy() for k, v in orig.items()}
     mref = build_model(kind, name, **kw)
-    cref = _fit(kind, mref, f["X"], f["Y"], f["V"], f["YV"])
+    cref = _fit(kind, mref, f["X"], f["Y"], f["V"], f["YV"], f.get("I"))
     ref_snap = forest_snapshot(mref) if cref.ok else None
     ref_pred = None
     if cref.ok:
@@ -249,7 +273,7 @@ def _check_model(case, res, tmp):
         c = None
         if op == "fit":
             model = build_model(kind, name, **kw)
-            c = _fit(kind, model, arrs["X"], arrs["Y"], arrs["V"], arrs["YV"])
+            c = _fit(kind, model, arrs["X"], arrs["Y"], arrs["V"], arrs["YV"], arrs.get("I"))
             if c.ok and ref_snap is not None:
                 res.see("model_fit_compared")
                 diff = snapshot_diff(forest_snapshot(model), ref_snap)
